@@ -63,6 +63,7 @@ def cells(tier):
                     'opts': ['permA', 'permC', 'tempA', 'tempC'],
                     'kinds': ['mapping']})
         out.append({'kind': 'real', 'backend': 'dict'})
+        out.append({'kind': 'shared', 'backend': 'dict', 'msgs': 3})
         out.append({'backend': 'dict', 'n': 2, 'rounds': 2, 'store_pool': 1,
                     'opts': ['ok', 'permA', 'tempA'],
                     'kinds': ['mapping', 'transient', 'permanent']})
@@ -158,9 +159,72 @@ def run_real(cell):
     api.prove(body in text, 'original-body-not-embedded', **info)
 
 
+def run_shared(cell):
+    """a relay that reports failures with Reply objects it keeps (module
+    constants, a cache): several messages fail with the same object, each
+    bounce must quote the reply as the relay gave it"""
+    import gevent
+    from slimta.queue import Queue
+    from slimta.relay import PermanentRelayError, TransientRelayError
+    from slimta.smtp.reply import Reply
+    qc.fresh_hub()
+    qc.patch_env()
+    store, sub = qc.make_storage('dict')
+    consts = {'temp': Reply('451', '4.3.0 Upstream unavailable'),
+              'perm': Reply('554', '5.7.1 Refused by policy')}
+    texts = {k: (r.code, r.message) for k, r in consts.items()}
+    plan = {}
+
+    class Relay(object):
+        relay_policies = []
+
+        def kill(self):
+            pass
+
+        def _attempt(self, envelope, attempts):
+            tag = envelope.client['tag']
+            k = plan.setdefault(tag, api.choice('out_%s' % tag, 4))
+            if k == 0:
+                raise TransientRelayError('later', consts['temp'])
+            if k == 1:
+                raise PermanentRelayError('no', consts['perm'])
+            cls, key = ((TransientRelayError, 'temp') if k == 2 else
+                        (PermanentRelayError, 'perm'))
+            return {r: cls('x', consts[key]) for r in envelope.recipients}
+    calls = []
+
+    def factory(envelope, reply):
+        calls.append((envelope.client['tag'], reply.code, reply.message))
+        return None
+    queue = Queue(store, Relay(), backoff=lambda env, attempts: None,
+                  bounce_factory=factory)
+    queue.start()
+    qc.run_until_quiescent()
+    for i in range(cell['msgs']):
+        queue.enqueue(qc.make_envelope('m%d' % i, 's@z', ['a@x', 'b@x']))
+        qc.run_until_quiescent()
+    queue.kill()
+    api.observe('bounces', [c[0] for c in calls])
+    info = dict(kind='shared', plan=plan)
+    for i in range(cell['msgs']):
+        mine = [c for c in calls if c[0] == 'm%d' % i]
+        if not api.prove(len(mine) == 1, 'bounce-count-wrong', msg=i,
+                         got=len(mine), **info):
+            continue
+        k = plan['m%d' % i]
+        code, text = texts['temp' if k in (0, 2) else 'perm']
+        if k in (0, 2):
+            text += ' (Too many retries)'
+        api.prove(mine[0][1] == code and mine[0][2] == text,
+                  'bounce-does-not-quote-the-reply', msg=i, got=mine[0][2],
+                  expected=text, **info)
+
+
 def run(cell):
     if cell.get('kind') == 'real':
         return run_real(cell)
+    if cell.get('kind') == 'shared':
+        return run_shared(cell)
     h = qhist.run_history(cell)
     rcpts = qhist.RCPTS[:cell['n']]
     info = dict(backend=cell['backend'])
